@@ -4,7 +4,9 @@ C08 — Service: each request gets exactly one outcome; contexts follow their sc
 (a) `Prop` statements used by `Props/C08.lean` (request outcome automaton);
 (b) the executable monitor evaluated on the implementation's observation stream.
 
-Known defect class decided exactly:
+Known defect classes decided exactly:
+  F-svc-5  a batch beyond `RepeatedTotal` is issued for a context that was paused and started again
+           since its last batch (`StartRequestContext` queues a batch without looking at the total);
   F-svc-3  a batch that was due is not issued because `FilterServiceProviders` found no exchange
            rate: the handler returns before deleting the queue entry and the context is stuck.
 -/
@@ -140,18 +142,21 @@ def checkSchedule (m : Mon) (pre post : State) : Mon × List Fail :=
     let f3 := if issued ∧ c.repeated ∧ clean ∧ 1 ≤ c.batchCounter ∧ last ≠ some (h - (c.freq : Int))
               then [{ clause := "batch-exactly-frequency-after-previous" : Fail }] else []
     let f4 := if issued ∧ c.repeated ∧ !(mm.modified.contains id) ∧ (0 : Int) ≤ c.total ∧ c.total ≤ (c.batchCounter : Int)
-              then [{ clause := "batch-beyond-total" : Fail }] else []
+              then [({ clause := "batch-beyond-total", cls := (if mm.pausedSince.contains id then "F-svc-5" else "") } : Fail)] else []
     let f5 := if issued ∧ !c.repeated ∧ 1 ≤ c.batchCounter then [{ clause := "one-shot-second-batch" : Fail }] else []
     let due := c.repeated && c.state = .running && clean && decide (1 ≤ c.batchCounter) &&
                (decide (c.total < (0 : Int)) || decide ((c.batchCounter : Int) < c.total)) && last == some (h - (c.freq : Int))
     let pausedNow : Bool := match cq with | some c' => c'.state = .paused | none => false
     let f6 := if due ∧ !issued ∧ !pausedNow then
                 [({ clause := "batch-due-not-issued", cls := (if rateErrorAt pre id then "F-svc-3" else "") } : Fail)] else []
+    -- a running context whose new-batch entry is due gets its batch (or is paused for lack of funds)
+    let f8 := if c.state = .running ∧ AMap.get? pre.newH id = some h ∧ pre.newQ.contains (h, id) ∧ !issued ∧ !pausedNow then
+                [({ clause := "queued-batch-issued", cls := (if rateErrorAt pre id then "F-svc-3" else "") } : Fail)] else []
     -- a one-shot context is removed when its batch expires
     let f7 := if !c.repeated ∧ AMap.get? pre.expH id = some h ∧ cq.isSome then [{ clause := "one-shot-removed-at-expiry" : Fail }] else []
     let mm1 : Mon := if issued then issuedMon mm id h else mm
     let mm2 : Mon := if pausedNow ∧ !(mm1.pausedSince.contains id) then { mm1 with pausedSince := id :: mm1.pausedSince } else mm1
-    (mm2, acc.2 ++ f1 ++ f2 ++ f3 ++ f4 ++ f5 ++ f6 ++ f7)) (m, [])
+    (mm2, acc.2 ++ f1 ++ f2 ++ f3 ++ f4 ++ f5 ++ f6 ++ f7 ++ f8)) (m, [])
 
 /-- one monitor step -/
 def check (m : Mon) (pre : State) (op : Op) (accepted : Bool) (post : State) : Mon × List Fail :=
